@@ -1197,6 +1197,9 @@ def parse_units():
         fn("check_parsed", "r", ensures=["r == self.parsed_ok::<T>(input@)"]),
         fn("len", "r", ensures=["r == self.length"]),
         fn("is_empty", "r", ensures=["r == (self.length == 0)"]),
+        # consumes `length` token trees and hands the SAME stream back (what it consumes is syn's business)
+        fn("erase_input", "r", ensures=["r is Ok ==> r->Ok_0 == input"],
+           subst=[{"find": "for _ in 0..self.len()", "replace": "for _i in 0..self.len()", "why": "Verus wants a named loop variable (unused)"}]),
     ], self_ty="GroupDeterminer"))
     u.append(fns(F_AG, [
         # ASSUMED (generic unit parsers behind `parse_n_or_empty_unit_fn!`): result tied to the R9 tables
@@ -1257,6 +1260,19 @@ def parse_units():
                              "forall|g: &%s| #[trigger] __p.requires((g,))" % GD,
                              "forall|g: &%s, b: bool| #[trigger] __p.ensures((g,), b) ==> b == (**g).matches(input)" % GD,
                          ], "after": "proof { if __r is Some { assert(is_first_match(group_determiners@, input, __i as int)); } else { assert(no_match(group_determiners@, input)); } }"}})})
+    # parse_until as a WHOLE: the scan block of the `while` condition and the statements after the loop are call-outs to
+    # their twins (both verified above from the same bytes; for the scan step the peek-free part of its contract).  Every
+    # Ok result carries a well-formed next group - what the builder's unit parser relies on - and a `~` that was seen is
+    # either attached to the operator that ends the operand or an error.
+    u.append(fns(F_UTILS, [fn("parse_until", "r", label="parse_until", attrs="#[verifier::exec_allows_no_decreases_clause]\n",
+        ensures=["r is Ok ==> opt_group_wf(r->Ok_0.next)"],
+        block_call_from="deferred = deferred_determiner.check_input(input);",
+        block_call="let (__e, __d, __n) = ParseUntil::scan_step_w::<T>(input, group_determiners, deferred_determiner, allow_empty_parsed, &tokens, deferred, next)?; deferred = __d; next = __n; __e",
+        tail_from="if let Some(group) = next {", tail_call="parse_until_suffix::<T>(input, wrapper_determiner, next, deferred, wrap, tokens)",
+        subst=[{"find": "T: Parse + Clone + Debug", "replace": "T: Parse", "why": "derive-style bounds are irrelevant here", "sig": True},
+               {"find": "group_determiners: impl Iterator<Item = &'a GroupDeterminer> + Clone", "replace": "group_determiners: &'a [GroupDeterminer]",
+                "why": "monomorphised at the only call site (a slice iterator; its `clone()` restarts at the first row)", "sig": True}],
+    )]))
     return u
 
 
@@ -1429,12 +1445,12 @@ OBLIGATIONS = {
     "C05": [("top", "generate_join"), ("top", "JoinOutput::new"), ("steps", "JoinOutput::join_steps"), ("steps", "lemma_join_comma"), ("steps", "lemma_count_take_step"), ("gen", "JoinOutput::generate_results_transposer"), ("parse", "parse_until_suffix"), ("parse", "ActionGroup::parse_stream"),
             ("core", "ActionGroup::to_wrapper_action_expr"), ("core", "ActionGroup::new"), ("core", "ExprGroup::application_type")],
     "C12": [("sep", "JoinOutput::separate_block_expr_process"), ("sep", "JoinOutput::separate_block_expr_err"), ("sep", "JoinOutput::separate_block_expr_initial"), ("sep", "lemma_sep_step"), ("steps", "JoinOutput::join_steps"), ("steps", "lemma_join_comma"), ("steps", "lemma_count_take_step"), ("builder", "ActionExprChainBuilder::build_from_parse_stream"), ("builder", "ActionExprChain::set_id"), ("builder", "ActionExprChain::new"), ("gen", "JoinOutput::branch_result_name"), ("gen", "JoinOutput::branch_result_pat")],
-    "C15": [("builder", "JoinInputDefault::parse"), ("builder", "ActionExprChainBuilder::new"), ("parse", "ParseUntil::scan_step"), ("builder", "ActionExprChainBuilder::parse_unit"), ("builder", "JoinInputDefault::parse_branches"), ("top", "generate_join"), ("top", "JoinOutput::new"), ("top", "JoinOutput::new_fields"), ("top", "lemma_new_fields"), ("steps", "JoinOutput::generate_steps"), ("gen", "lemma_split_balance"), ("gen", "lemma_accepted_chain_never_underflows"), ("gen", "lemma_split_members"), ("gen", "lemma_accepted_branch"), ("builder", "lemma_member_ok"), ("builder", "lemma_unwrap_only_from_unwrap"), ("gen", "JoinOutput::split_branch_steps"), ("gen", "JoinOutput::generate_step_branch"), ("parse", "parse_until_suffix"), ("builder", "ActionExprChainBuilder::build_from_parse_stream"), ("builder", "ActionExprChain::append_member"),
+    "C15": [("parse", "parse_until"), ("builder", "JoinInputDefault::parse"), ("builder", "ActionExprChainBuilder::new"), ("parse", "ParseUntil::scan_step"), ("builder", "ActionExprChainBuilder::parse_unit"), ("builder", "JoinInputDefault::parse_branches"), ("top", "generate_join"), ("top", "JoinOutput::new"), ("top", "JoinOutput::new_fields"), ("top", "lemma_new_fields"), ("steps", "JoinOutput::generate_steps"), ("gen", "lemma_split_balance"), ("gen", "lemma_accepted_chain_never_underflows"), ("gen", "lemma_split_members"), ("gen", "lemma_accepted_branch"), ("builder", "lemma_member_ok"), ("builder", "lemma_unwrap_only_from_unwrap"), ("gen", "JoinOutput::split_branch_steps"), ("gen", "JoinOutput::generate_step_branch"), ("parse", "parse_until_suffix"), ("builder", "ActionExprChainBuilder::build_from_parse_stream"), ("builder", "ActionExprChain::append_member"),
             ("builder", "lemma_append_facts"), ("builder", "lemma_balanced_depth"),
             ("gen", "JoinOutput::wrap_last_step_stream"), ("gen", "JoinOutput::process_step_action_expr"),
             ("gen", "JoinOutput::generate_def_and_step_streams"), ("gen", "JoinOutput::expand_process_expr"),
             ("core", "ProcessExpr::to_tokens")],
-    "C14": [("parse", "Empty::parse"), ("parse", "is_valid_expr"), ("parse", "GroupDeterminer::check_parsed"), ("parse", "is_valid_stream"), ("parse", "GroupDeterminer::combinator"), ("parse", "ParseUntil::scan_step"), ("parse", "parse_until_suffix"), ("det", "lemma_first_match_is_longest"), ("optable", "lemma_operator_tables")],
+    "C14": [("parse", "parse_until"), ("parse", "GroupDeterminer::erase_input"), ("parse", "Empty::parse"), ("parse", "is_valid_expr"), ("parse", "GroupDeterminer::check_parsed"), ("parse", "is_valid_stream"), ("parse", "GroupDeterminer::combinator"), ("parse", "ParseUntil::scan_step"), ("parse", "parse_until_suffix"), ("det", "lemma_first_match_is_longest"), ("optable", "lemma_operator_tables")],
     "C16": [("builder", "JoinInputDefault::parse"), ("top", "join_impl"), ("builder", "JoinInputDefault::parse_option_futures_crate_path"), ("builder", "JoinInputDefault::parse_option_custom_joiner"), ("builder", "JoinInputDefault::parse_option_transpose_results"), ("builder", "JoinInputDefault::parse_option_lazy_branches"), ("builder", "JoinInputDefault::parse_branches"), ("top", "generate_join"), ("top", "jo_into_token_stream"), ("top", "ji_futures_crate_path"), ("top", "ji_branches"), ("top", "ji_handler"), ("top", "ji_joiner"), ("top", "ji_transpose_results_option"), ("top", "ji_lazy_branches_option"), ("top", "JoinOutput::new"), ("gen", "JoinOutput::generate_handle"), ("gen", "JoinOutput::generate_step_branch"), ("steps", "JoinOutput::generate_step_tail"), ("guards", "new_init_lazy_branches"), ("guards", "new_init_transpose")],
     "C17": [("sep", "is_block_expr"), ("sep", "JoinOutput::separate_block_expr_process"), ("sep", "JoinOutput::separate_block_expr_err"), ("sep", "JoinOutput::separate_block_expr_initial"), ("sep", "lemma_sep_step")] + [("names", "lemma_names_never_clash"), ("names", "lemma_names_table"), ("names", "lemma_name3_injective"), ("names", "lemma_name1_injective"), ("names", "lemma_distinguishable"), ("names", "lemma_names_strlits"), ("gen", "JoinOutput::generate_def_and_step_streams")] + [("core", n) for n in ['construct_var_name', 'construct_step_results_name', 'construct_result_name', 'construct_thread_builder_name', 'construct_inspect_fn_name', 'construct_spawn_tokio_fn_name', 'construct_results_name', 'construct_handler_name', 'construct_internal_value_name', 'construct_thread_builder_fn_name', 'construct_expr_wrapper_name']],
     "C20": [("core", n) for n in ['construct_var_name', 'construct_step_results_name', 'construct_result_name', 'construct_thread_builder_name', 'construct_inspect_fn_name', 'construct_spawn_tokio_fn_name', 'construct_results_name', 'construct_handler_name', 'construct_internal_value_name', 'construct_thread_builder_fn_name', 'construct_expr_wrapper_name']],
@@ -1472,6 +1488,7 @@ def reused_contracts():
     for n in ("generate_steps", "generate_step_tail", "join_steps", "generate_thread_builders_and_spawn_joiners"):
         out["JoinOutput::%s" % n] = "steps"
     out["JoinOutput::generate_step"] = "step"
+    out["parse_until"] = "parse"
     for n in ("new", "set_id", "members", "append_member", "len"):
         out["<ActionExprChain as Chain>::%s" % n] = "builder"
     return out
